@@ -214,6 +214,34 @@ let do_exp (r : rd) : ostr =
   let ft = read_ft r in
   if (match v with "v0" -> export_ok_v0 nm ft | _ -> export_ok_v1 nm ft) then "true" else "false"
 
+(* ---------- the parser model on raw bytes ---------- *)
+let perr_name (e : perr) : ostr = match e with
+  | E_eof -> "eof" | E_magic -> "magic" | E_version -> "version" | E_section_id -> "section-id"
+  | E_section_order -> "section-order" | E_size -> "size" | E_leb -> "leb" | E_opcode -> "opcode"
+  | E_valtype -> "valtype" | E_blocktype -> "blocktype" | E_tag -> "tag" | E_name -> "name" | E_limits -> "limits"
+  | E_table -> "table" | E_memory -> "memory" | E_start -> "start" | E_constexpr -> "constexpr" | E_multi -> "multi"
+  | E_leftover -> "leftover" | E_byte -> "byte" | E_code_size -> "code-size"
+let do_bytes (r : rd) : ostr =
+  let bs = if r.pos < Array.length r.toks then bytes_of_hex (next r) else [] in
+  let cap = n_of_int (List.length bs) in
+  let v cfg sx = match parse_module cfg bs with
+    | POk (p, _, a) ->
+        (match to_vmodule cap p with
+         | Some vm -> if validate_module sx vm then Printf.sprintf "ok:%Lu" (int64_of_n a) else "err:validate"
+         | None -> "err:validate")
+    | PErr e -> "err:" ^ perr_name e
+    | PFuel -> "FUEL" in
+  let sk = match parse_skeleton bs with
+    | POk (ss, _, _) ->
+        let item ((id, _), len) = Printf.sprintf "%Lu:%Lu" (int64_of_n id) (int64_of_n len) in
+        let noncustom = List.sort (fun ((a, _), _) ((b, _), _) -> compare (int64_of_n a) (int64_of_n b))
+                          (List.filter (fun ((id, _), _) -> int64_of_n id <> 0L) ss) in
+        let custom = List.filter (fun ((id, _), _) -> int64_of_n id = 0L) ss in
+        "ok:" ^ String.concat "," (List.map item (noncustom @ custom))
+    | PErr e -> "err:" ^ perr_name e
+    | PFuel -> "FUEL" in
+  Printf.sprintf "v0=%s v1=%s skel=%s" (v cfg_v0 false) (v cfg_v1 true) sk
+
 let () =
   try
     while true do
@@ -225,6 +253,7 @@ let () =
           (match next r with
            | "MOD" -> do_mod r
            | "LEB" -> do_leb r
+           | "BYTES" -> do_bytes r
            | "IMP" -> do_imp r
            | "EXP" -> do_exp r
            | c -> "bad-command " ^ c)
